@@ -48,3 +48,31 @@ Proof. rewrite <- src_clean_body. reflexivity. Qed.
 Lemma src_v1_clean_subject subject : V1.cleanSubject subject = clean_subject subject.
 Proof. rewrite <- src_clean_body. reflexivity. Qed.
 
+
+(* ---------- ActivationClaims.HashID (both libraries): refused when issuer, subject or granted subject is missing;
+   otherwise base32 of the digest of a fresh hash object that was written exactly the text issuer.subject.cleaned -
+   whatever the hash object is (an opaque value: its making, the one write and the final Sum are unknown functions) *)
+Lemma str_app_empty_r (s : string) : (s ++ "")%string = s.
+Proof. induction s as [|c s IH]; [reflexivity|]. cbn. now rewrite IH. Qed.
+Lemma str_app_assoc (a b c : string) : ((a ++ b) ++ c)%string = (a ++ b ++ c)%string.
+Proof. induction a as [|x a IH]; [reflexivity|]. cbn. now rewrite IH. Qed.
+Section HashID.
+  Context {V : Type} (vnil : V) (b32 : string -> string) (hnew : V) (hsum : V -> string -> string) (hwrite : V -> string -> V).
+  Definition hash_of (text : string) : string := b32 (hsum (hwrite hnew text) "").
+  Definition hash_result (o : option string) : string * option string :=
+    match o with Some h => (h, None) | None => ("", Some "not enough data in the activaion claims to create a hash") end.
+  Lemma src_hash_id (iss sub imp : string) :
+    V2.ActivationClaims_HashID V vnil imp iss sub b32 hnew hsum hwrite = hash_result (hash_id hash_of iss sub imp).
+  Proof.
+    unfold V2.ActivationClaims_HashID, hash_id, hash_of, preimage. cbv zeta. rewrite src_clean_subject.
+    destruct ((iss =? "") || (sub =? "") || (imp =? "")); [reflexivity|].
+    cbn [hash_result]. cbn [String.append]. rewrite ?str_app_assoc, ?str_app_empty_r. reflexivity.
+  Qed.
+  Lemma src_v1_hash_id (iss sub imp : string) :
+    V1.ActivationClaims_HashID V vnil imp iss sub b32 hnew hsum hwrite = hash_result (hash_id hash_of iss sub imp).
+  Proof.
+    unfold V1.ActivationClaims_HashID, hash_id, hash_of, preimage. cbv zeta. rewrite src_v1_clean_subject.
+    destruct ((iss =? "") || (sub =? "") || (imp =? "")); [reflexivity|].
+    cbn [hash_result]. cbn [String.append]. rewrite ?str_app_assoc, ?str_app_empty_r. reflexivity.
+  Qed.
+End HashID.
